@@ -164,10 +164,37 @@ theorem inv_stepThread_cas (P : Params) (pre : Store) (c : Cfg) (tid : Nat)
         exact inv_okCfg P pre c tid _ _ _ _ h (by simpa using hl)
     · simp only [hcas, if_true]; exact h
 
+/-- A failed storage call changes neither the store nor the verdict of the replay (on either path). -/
+theorem inv_stepFault (P : Params) (pre : Store) (c : Cfg) (tid : Nat) (h : Inv P pre c) :
+    Inv P pre (stepFault P c tid) := by
+  unfold stepFault
+  split
+  · exact h
+  · unfold Inv at *; simp only; rw [replay_snoc, h]; rfl
+  · split
+    · unfold Inv at *; simp only; rw [replay_snoc, h]; rfl
+    · unfold Inv at *; simp only; rw [replay_snoc, h]; rfl
+  · split
+    · unfold Inv at *; simp only; rw [replay_snoc, h]; rfl
+    · unfold Inv at *; simp only; rw [replay_snoc, h]; rfl
+  · split
+    · split
+      · exact inv_failCfg P pre c tid _ _ _ h
+      · split
+        · exact h
+        · exact inv_failCfg P pre c tid _ _ _ h
+    · split
+      · exact h
+      · rename_i kind _ _ _ _ a _ _
+        have := inv_failCfg P pre c tid kind a (c.threads tid) h
+        unfold Inv at *
+        exact this
+
 theorem inv_step_cas (P : Params) (pre : Store) (c : Cfg) (s : Sch)
     (hcas : P.cas = true) (hrn : P.renewShared = true) (h : Inv P pre c) : Inv P pre (step P c s) := by
   cases s with
   | step tid => exact inv_stepThread_cas P pre c tid hcas hrn h
+  | fault tid => exact inv_stepFault P pre c tid h
   | tick dt => unfold Inv step at *; simp only; rw [replay_snoc, h]; rfl
 
 theorem inv_run_cas (P : Params) (pre : Store) (σ : List Sch) (c : Cfg)
@@ -237,6 +264,7 @@ theorem still_live (ttl : Nat → Nat) (k : Key) (t0 : Nat) (mid : List Ev) (s :
       · exact ⟨e, by simp [specStep, lookup_put_ne _ _ _ _ hkk, hl], he, hz⟩
     | exh t kind => exact ih _ hq.2 ht0 ⟨e, hl, he, hz⟩ (by simpa [specStep, elapsed] using hel) hg
     | nop t => exact ih _ hq.2 ht0 ⟨e, hl, he, hz⟩ (by simpa [specStep, elapsed] using hel) hg
+    | err t => exact ih _ hq.2 ht0 ⟨e, hl, he, hz⟩ (by simpa [specStep, elapsed] using hel) hg
     | rel t kind id =>
       have hne : k ≠ (kind, id) := by
         have := hq.1; simp [quiet] at this; exact fun x => this x.symm
@@ -422,10 +450,71 @@ theorem invF_stepThread (P : Params) (pre : Store) (I : Nat) (c : Cfg) (tid : Na
         · simp only [okCfg, upd_ne _ _ _ _ ei] at hi
           exact absurd (h.one i tid a' a hi hpc) ei
 
+theorem invF_stepFault (P : Params) (pre : Store) (I : Nat) (c : Cfg) (tid : Nat)
+    (hcas : P.cas = false) (h : InvF P pre I c) : InvF P pre I (stepFault P c tid) := by
+  unfold stepFault
+  split
+  · exact h
+  · apply invF_plain P pre I c tid _ c.store _ h
+    · have := h.inv; unfold Inv at *; simp only; rw [replay_snoc, this]; rfl
+    · exact finishOp_inst _ I (h.inst tid)
+    · exact finishOp_noRenew _ (h.noRenew tid)
+    · intro a; simp [finishOp]
+    · intro k hk; exact hk
+  · split
+    · apply invF_plain P pre I c tid _ c.store _ h
+      · have := h.inv; unfold Inv at *; simp only; rw [replay_snoc, this]; rfl
+      · exact finishOp_inst _ I (h.inst tid)
+      · exact finishOp_noRenew _ (h.noRenew tid)
+      · intro a; simp [finishOp]
+      · intro k hk; exact hk
+    · apply invF_plain P pre I c tid _ c.store _ h
+      · have := h.inv; unfold Inv at *; simp only; rw [replay_snoc, this]; rfl
+      · exact finishOp_inst _ I (h.inst tid)
+      · exact finishOp_noRenew _ (h.noRenew tid)
+      · intro a; simp [finishOp]
+      · intro k hk; exact hk
+  · rename_i rest hops
+    exact absurd (by rw [hops]; exact List.mem_cons_self) (h.noRenew tid)
+  · rename_i kind cands rest hops
+    have ft := fun a => failThread_ok P kind a (c.threads tid) I (h.inst tid) (h.noRenew tid)
+    split
+    · rename_i a hpc
+      simp only [hcas, Bool.false_eq_true, if_false]
+      split
+      · exact h
+      · apply invF_plain P pre I c tid _ c.store _ h
+        · exact inv_failCfg P pre c tid _ _ _ h.inv
+        · exact (ft a).1
+        · exact (ft a).2.1
+        · exact (ft a).2.2
+        · intro k hk; exact hk
+    · -- Set failed: the candidate is dropped and the mutex released
+      rename_i a hpc
+      simp only [hcas, Bool.false_eq_true, if_false]
+      refine ⟨by have := inv_failCfg P pre c tid kind a (c.threads tid) h.inv; unfold Inv at *; exact this, ?_, ?_, ?_, ?_⟩
+      · intro i; by_cases e : i = tid
+        · subst e; simp only [failCfg, upd_self]; exact (ft a).1
+        · simp only [failCfg, upd_ne _ _ _ _ e]; exact h.inst i
+      · intro i; by_cases e : i = tid
+        · subst e; simp only [failCfg, upd_self]; exact (ft a).2.1
+        · simp only [failCfg, upd_ne _ _ _ _ e]; exact h.noRenew i
+      · intro i a' hpc'
+        by_cases e : i = tid
+        · subst e; simp only [failCfg, upd_self] at hpc'; exact absurd hpc' ((ft a).2.2 a')
+        · simp only [failCfg, upd_ne _ _ _ _ e] at hpc'
+          exact absurd (h.one i tid a' a hpc' hpc) e
+      · intro i j a' b hi hj
+        by_cases ei : i = tid
+        · subst ei; simp only [failCfg, upd_self] at hi; exact absurd hi ((ft a).2.2 a')
+        · simp only [failCfg, upd_ne _ _ _ _ ei] at hi
+          exact absurd (h.one i tid a' a hi hpc) ei
+
 theorem invF_step (P : Params) (pre : Store) (I : Nat) (c : Cfg) (s : Sch)
     (hcas : P.cas = false) (h : InvF P pre I c) : InvF P pre I (step P c s) := by
   cases s with
   | step tid => exact invF_stepThread P pre I c tid hcas h
+  | fault tid => exact invF_stepFault P pre I c tid hcas h
   | tick dt =>
     refine ⟨?_, h.inst, h.noRenew, ?_, h.one⟩
     · have := h.inv; unfold Inv step at *; simp only; rw [replay_snoc, this]; rfl
